@@ -658,6 +658,12 @@ func genCase(g *mt.Gen, site string) rcase {
 		c.Mask = g.MaskFrom(focus, mt.PathOpts{Corrupt: 0})
 	default:
 		c.Mask = g.MaskFrom(focus, mt.PathOpts{Corrupt: 0.5})
+		if g.R.Intn(3) == 0 {
+			// a descriptor-derived corruption (corrupt.go): the names the descriptor graph offers below a
+			// map / repeated field, among others; sometimes below a field the message populates
+			bad, _ := corruptionsOf(md).draw(g)
+			c.Mask.Paths[g.R.Intn(len(c.Mask.Paths))] = bad
+		}
 	}
 	if repPath != "" && !c.Mask.Nil {
 		c.Mask.Paths = append(c.Mask.Paths, repPath)
@@ -814,6 +820,10 @@ func seededCases() []rcase {
 		{"repeated_int32.x"}, {"map_string_string.a"}, {"default_int32.x"},
 	} {
 		ms = append(ms, mt.Mask{Paths: ps})
+	}
+	// one mask per kind of descriptor-derived corruption (corrupt.go)
+	for _, p := range corruptionsOf((&testproto.TestAllTypes{}).ProtoReflect().Descriptor()).firstOfEachKind(1) {
+		ms = append(ms, mt.Mask{Paths: []string{p}}, mt.Mask{Paths: []string{"default_int32", p}})
 	}
 	var out []rcase
 	for _, site := range sites {
